@@ -99,7 +99,7 @@ func JudgeC15(c *Ctx, h *History, obs []*Obs) ([]Violation, error) {
 			c.Stats.Add("c15.skipped_ambiguous_or_defective", 1)
 			continue
 		}
-		if o.Exit != 0 && lacksPackageClause(o, effTags(g, h.World)) {
+		if o.Exit != 0 && g.FileAge != "fresh" && lacksPackageClause(o, effTags(g, h.World)) {
 			// known finding F9 (a stale output without package clause blocks the go tool):
 			// C16's and C09's subject, not a question of where output lands
 			c.Stats.Add("c15.skipped_blocked_by_stale_output_without_package_clause", 1)
